@@ -261,3 +261,12 @@ def compact_sample(sess, max_calls=2):
             out["events"].append({"call": e["res"], "op": e["op"], "x": e["x"], "y": e["y"], "pairing": e["px"] + e["py"], "F": e["F"],
                                   "outcome": e["outcome"], "popped": e["popped"], "mp": [[[q[:2] for q in r] for r in p] for p in e["mp"]]})
     return out
+
+
+def abstract_laws(workdir, buggy=False, maxcalls=2):
+    """MC of the abstract call-history machine (BoolOpsAbs.tla): the relational laws are consequences
+    of the contract C01 in every history of bounded length. Returns (parsed result, seconds)."""
+    cfg = ("SPECIFICATION Spec\nCONSTANTS\n  Cells = {1, 2}\n  Far = 9\n  MaxCalls = %d\n  Buggy = %s\nINVARIANTS\n  C05_Partition\n  C06_Commutes\n  C06_Self\n  C06_Empty\n"
+           "  C07_RepresentationInvariant\n  C09_FarPartLocal\n  C11_ChainedAlgebra\n  C11_Examples\n  C12_Deterministic\nCHECK_DEADLOCK FALSE\n") % (maxcalls, "TRUE" if buggy else "FALSE")
+    out, dt = run_tlc("BoolOpsAbs.tla", cfg, workdir, timeout=3000)
+    return parse_tlc(out, set()), dt
